@@ -243,11 +243,38 @@ type RateCase struct {
 }
 
 func genRate(t *rapid.T) RateCase {
-	c := RateCase{Rate: rapid.IntRange(1, 50).Draw(t, "rate"), Burst: rapid.IntRange(1, 20).Draw(t, "burst")}
+	c := RateCase{Burst: rapid.IntRange(1, 20).Draw(t, "burst")}
+	// rates up to 400/s keep "idle for burst/rate seconds" (a full refill) within tens of milliseconds
+	if rapid.Bool().Draw(t, "highRate") {
+		c.Rate = rapid.SampledFrom([]int{60, 100, 200, 400}).Draw(t, "rateHigh")
+	} else {
+		c.Rate = rapid.IntRange(1, 50).Draw(t, "rate")
+	}
+	refillMs := (1000*c.Burst + c.Rate - 1) / c.Rate // idle time that refills an empty bucket completely
+	idle := func(label string) int {
+		// gaps relative to the refill time: partial, exact, generous
+		g := refillMs * rapid.SampledFrom([]int{1, 2, 4, 6}).Draw(t, label) / 4
+		if g > 150 {
+			g = 150
+		}
+		return g + 2
+	}
 	n := rapid.IntRange(1, 6).Draw(t, "nbursts")
 	total := 0
-	for i := 0; i < n && total < 160; i++ {
-		b := RateBurst{N: rapid.IntRange(1, 2*c.Burst+2).Draw(t, "n"), GapMs: rapid.SampledFrom([]int{0, 0, 1, 3, 10, 25, 60}).Draw(t, "gap")}
+	if rapid.Bool().Draw(t, "idleThenBurst") {
+		// directed history: the bucket exists with tokens left, the address stays idle, then asks for far more than burst
+		first := RateBurst{N: rapid.IntRange(1, c.Burst).Draw(t, "first")}
+		second := RateBurst{N: 2*c.Burst + 2, GapMs: idle("idle0")}
+		total += second.GapMs
+		c.Bursts = append(c.Bursts, first, second)
+	}
+	for i := 0; i < n && total < 260; i++ {
+		b := RateBurst{N: rapid.IntRange(1, 2*c.Burst+2).Draw(t, "n")}
+		if rapid.IntRange(0, 2).Draw(t, "gapKind") == 0 {
+			b.GapMs = idle("idle")
+		} else {
+			b.GapMs = rapid.SampledFrom([]int{0, 0, 1, 3, 10, 25, 60}).Draw(t, "gap")
+		}
 		total += b.GapMs
 		c.Bursts = append(c.Bursts, b)
 	}
@@ -259,7 +286,12 @@ type rateObs struct {
 	allowed bool
 }
 
-// rateBound checks: for every pair i<=j of ALLOWED calls, count(i..j) <= burst + rate*(t_after(j)-t_before(i)) + 1.
+// rateSlack: a token bucket holds at most `burst` tokens before call i and gains at most rate*(t_after(j)-t_before(i))
+// until call j, so count(i..j) <= burst + rate*elapsed exactly; the count is an integer and the measured interval
+// contains the implementation's own clock readings, so half a token absorbs float rounding and clock granularity.
+const rateSlack = 0.5
+
+// rateBound checks: for every pair i<=j of ALLOWED calls, count(i..j) <= burst + rate*(t_after(j)-t_before(i)) + rateSlack.
 func rateBound(obs []rateObs, rate, burst int) (bad bool, detail string) {
 	var al []ival
 	for _, o := range obs {
@@ -270,9 +302,9 @@ func rateBound(obs []rateObs, rate, burst int) (bad bool, detail string) {
 	for i := range al {
 		for j := i; j < len(al); j++ {
 			cnt := float64(j - i + 1)
-			lim := float64(burst) + float64(rate)*(al[j].A-al[i].B).Seconds() + 1
+			lim := float64(burst) + float64(rate)*(al[j].A-al[i].B).Seconds() + rateSlack
 			if cnt > lim {
-				return true, fmt.Sprintf("%d allowed calls between %v and %v, bound burst %d + rate %d/s * %v + 1 = %.2f",
+				return true, fmt.Sprintf("%d allowed calls between %v and %v, bound burst %d + rate %d/s * %v + 0.5 = %.2f",
 					j-i+1, al[i].B, al[j].A, burst, rate, al[j].A-al[i].B, lim)
 			}
 		}
@@ -307,6 +339,13 @@ func runRate(t vkit.TB, c RateCase) {
 		vkit.Violation(t, "C18/rate/AllowIP-exceeds-rate-and-burst", detail, Replay{Kind: "rate", Rate: &c})
 		vkit.Case("known:C18/rate/AllowIP-exceeds-rate-and-burst", false, "")
 		return
+	}
+	refillMs := (1000*c.Burst + c.Rate - 1) / c.Rate
+	for i, b := range c.Bursts {
+		if i > 0 && b.GapMs >= refillMs && b.N > c.Burst {
+			vkit.Class("rate:feat:idle>=full-refill-then-more-than-burst")
+			break
+		}
 	}
 	class := "rate:never-refused"
 	switch {
